@@ -5,7 +5,7 @@ from lib.verif import *
 
 THEOREMS = [
     "C15_settle_sound", "C15_monotone", "C15_amt_paid",
-    "C15_replay_same_verdict", "C15_no_settle_and_cancel",
+    "C15_replay_same_verdict", "C15_no_settle_and_cancel", "C15_replay_keysend_refuted",
 ]
 MODULE = "LV.Invoice.Props"
 TARGETS = ["theories/Invoice/Props.vo", "theories/Invoice/Exec.vo",
@@ -229,6 +229,31 @@ def predicate(c):
                     fails.append(("C15_no_settle_and_cancel", "%s: htlc %d recorded on two invoices"
                                   % (where, h["key"])))
                 seen_keys[h["key"]] = hid
+            # every RECORDED htlc passed the acceptance checks (address, margins, amount floor)
+            if terms and not terms.get("amp"):
+                for h in s["htlcs"]:
+                    hin = arrived.get(h["key"])
+                    if hin is None:
+                        continue
+                    carried = hin["mpp"][0] if hin["mpp"] is not None else hin["path"]
+                    if carried is not None and carried != terms["addr"]:
+                        fails.append(("C15_settle_sound", "%s: htlc %d recorded although it carried "
+                                      "payment address %s, invoice has %s"
+                                      % (where, h["key"], carried, terms["addr"])))
+                    if carried is None and terms.get("addr_req") and not (
+                            isinstance(hin["ks"], int) and hin["ks"] == hin["hash"]):
+                        fails.append(("C15_settle_sound", "%s: htlc %d recorded without payment "
+                                      "address on an invoice that requires one" % (where, h["key"])))
+                    if h["expiry"] < h["height"] + max(rd, terms["delta"]):
+                        fails.append(("C15_settle_sound", "%s: htlc %d recorded with expiry %d < "
+                                      "height %d + %d" % (where, h["key"], h["expiry"], h["height"],
+                                                          max(rd, terms["delta"]))))
+                    if h["total"] == 0 and h["amt"] < terms["value"]:
+                        fails.append(("C15_settle_sound", "%s: legacy htlc %d recorded with %d < "
+                                      "invoice value %d" % (where, h["key"], h["amt"], terms["value"])))
+                    if h["total"] != 0 and h["total"] < terms["value"]:
+                        fails.append(("C15_settle_sound", "%s: htlc %d recorded with set total %d < "
+                                      "invoice value %d" % (where, h["key"], h["total"], terms["value"])))
             if not terms.get("amp"):
                 ssum = sum(h["amt"] for h in s["htlcs"] if h["state"] == "settled") % W64
                 if s["state"] == "settled":
